@@ -38,7 +38,7 @@ def impl(case):
     return out
 
 
-TERM_CHARSETS = [list("ab "), list("abc "), list("aéü "), list("abA "), list("a€b")]
+TERM_CHARSETS = [list("ab "), list("abc "), list("aéü "), list("abA "), list("a€b"), list("→←≤1"), list("€む→"), list("ab. ")]
 
 
 def make_case(rng, i, tier):
@@ -57,6 +57,16 @@ def make_case(rng, i, tier):
             ast = regexgen.gen_re(rng, rng.choice([1, 2]), [c for c in cs])
             ast = ("cat", ("lit", rng.choice(letters)), ast) if rng.random() < 0.7 else ("plus", ("cls", sorted(rng.sample(letters, min(2, len(letters)))), False))
             terms.append({"name": name, "kind": "re", "ast": ast})
+    if rng.random() < 0.3 and len(terms) >= 1:
+        # two terminals with the same source text but different meaning: "x"i vs "x", or "." vs /./
+        if "." in cs and rng.random() < 0.5:
+            terms.append({"name": "TY", "kind": "str", "lit": ".", "ci": False, "ast": ("lit", ".")})
+            terms.append({"name": "TZ", "kind": "re", "ast": ("dot",)})
+        else:
+            lit = rng.choice([c for c in letters if c.isascii() and c.isalpha()] or ["a"])
+            if lit.isalpha() and lit.upper() in cs or True:
+                terms.append({"name": "TY", "kind": "str", "lit": lit, "ci": True, "ast": ("ilit", lit)})
+                terms.append({"name": "TZ", "kind": "str", "lit": lit, "ci": False, "ast": ("lit", lit)})
     ignore = None
     if " " in cs and rng.random() < 0.5:
         ignore = {"name": "WS", "kind": "str", "lit": " ", "ci": False, "ast": ("lit", " ")}
